@@ -10,12 +10,25 @@ From Gen Require Import Leaf_gen.
 #[local] Open Scope Z_scope.
 Transparent two32 two63 two64 two31.
 
-(* curCount is a uint32 whatever the gauge *)
-Lemma cur_count_range gauge : 0 <= cur_count gauge < 4294967296.
-Proof.
-  unfold cur_count. destruct (0 <=? gauge); [|lia].
-  pose proof (u32_range gauge) as H. unfold in_u32, two32 in H. exact H.
-Qed.
+(* proof style: one case per comparison of either side, comparisons turned into (in)equalities,
+   equal branches by reflexivity, contradictory ones by lia - so that a rewrite of the Go condition
+   that keeps its meaning (`!(a <= b)` for `a > b`, an extracted local) still checks *)
+Ltac split_ifs :=
+  repeat match goal with |- context [if ?c then _ else _] => destruct c eqn:? end.
+Ltac bool_facts :=
+  repeat match goal with
+  | H : negb _ = true |- _ => apply negb_true_iff in H
+  | H : negb _ = false |- _ => apply negb_false_iff in H
+  | H : andb _ _ = true |- _ => apply andb_true_iff in H; destruct H
+  | H : orb _ _ = false |- _ => apply orb_false_iff in H; destruct H
+  | H : (_ <? _) = true |- _ => apply Z.ltb_lt in H
+  | H : (_ <? _) = false |- _ => apply Z.ltb_ge in H
+  | H : (_ <=? _) = true |- _ => apply Z.leb_le in H
+  | H : (_ <=? _) = false |- _ => apply Z.leb_gt in H
+  | H : (_ =? _) = true |- _ => apply Z.eqb_eq in H
+  | H : (_ =? _) = false |- _ => apply Z.eqb_neq in H
+  end.
+Ltac leaf_cases := split_ifs; bool_facts; first [reflexivity | exfalso; lia].
 
 (* the iteration for a Concurrency rule (MetricType = 0, the only type IsValidRule admits):
    block with (this rule, snapshot) exactly when the model's rule_exceeds holds, otherwise go on
@@ -24,27 +37,23 @@ Lemma isolation_checkPass_step_ok b cur gauge thr : in_u32 b ->
   isolation_checkPass_step b cur gauge 0 thr =
   if rule_exceeds gauge b thr then LReturn (false, 1, cur_count gauge) else LContinue (cur_count gauge).
 Proof.
-  intros Hb. unfold isolation_checkPass_step, rule_exceeds. cbv zeta.
-  change (0 =? 0) with true. cbv iota.
-  pose proof (cur_count_range gauge) as Hc. unfold cur_count in *.
-  unfold in_u32, two32 in Hb.
-  destruct (0 <=? gauge) eqn:G;
-    (rewrite u64_id by (unfold in_u64, two64; lia));
-    match goal with |- context [?a <? ?b] => destruct (a <? b) end; reflexivity.
+  intros Hb. unfold isolation_checkPass_step, rule_exceeds, cur_count. cbv zeta.
+  pose proof (u32_range gauge) as Hc. unfold in_u32, two32 in Hb, Hc.
+  repeat rewrite u64_id by (unfold in_u64, two64; lia).
+  leaf_cases.
 Qed.
 
 (* a rule of another metric type is skipped: nothing is read, nothing changes *)
 Lemma isolation_checkPass_step_other b cur gauge mt thr : mt <> 0 ->
   isolation_checkPass_step b cur gauge mt thr = LContinue cur.
 Proof.
-  intros Hm. unfold isolation_checkPass_step. cbv zeta.
-  destruct (mt =? 0) eqn:E; [apply Z.eqb_eq in E; contradiction|reflexivity].
+  intros Hm. unfold isolation_checkPass_step. cbv zeta. leaf_cases.
 Qed.
 
 (* a loaded rule is a Concurrency rule: the regenerated IsValidRule accepts no other type *)
 Lemma isolation_valid_rule_concurrency mt thr : isolation_IsValidRule mt thr false false = 0 -> mt = 0.
 Proof.
-  unfold isolation_IsValidRule. destruct (mt =? 0) eqn:E; cbn [negb]; [intros _; apply Z.eqb_eq; exact E|discriminate].
+  unfold isolation_IsValidRule. split_ifs; bool_facts; first [discriminate | intros _; lia].
 Qed.
 
 (* the whole loop = the regenerated step iterated over the rules of the resource (thresholds in
